@@ -1176,6 +1176,15 @@ fn families() -> Vec<Scenario> {
         v.push(fam(25, 1, o, vec![(K_REG, 0, R_GOOD), (K_SETTLE, 0, 0), (K_MODE, 0, A_SUBERR), (K_MODE, 0, 100 + cls), (K_REV, 0, 0), (K_SLEEP, 9000, 0), (K_SETTLE, 0, 0), (K_RETRY, 0, 0),
                                   (K_SETTLE, 0, 0), (K_MODE, 0, A_ACCEPT), (K_MODE, 0, 100 + R_GOOD), (K_RETRY, 0, 0), (K_SETTLE, 0, 0)]));
     }
+    // 29: registertower (good, extending receipt) with a KNOWN tower that has undelivered data keeps its status:
+    //     (a) subscription error after a renewal refused for good (no retrier): still subscription error, retrytower accepted, then delivery
+    v.push(fam(29, 1, o, vec![(K_REG, 0, R_GOOD), (K_MODE, 0, A_SUBERR), (K_MODE, 0, 100 + R_NOTEXT), (K_REV, 0, 0), (K_SETTLE, 0, 0), (K_MODE, 0, A_ACCEPT), (K_REG, 0, R_GOOD),
+                              (K_SETTLE, 0, 0), (K_RETRY, 0, 0), (K_SETTLE, 0, 0)]));
+    //     (b) unreachable with an idle retrier: still unreachable, retrytower accepted, then delivery
+    v.push(fam(29, 1, o, vec![(K_REG, 0, R_GOOD), (K_UP, 0, 0), (K_REV, 0, 0), (K_SETTLE, 0, 0), (K_UP, 0, 1), (K_REG, 0, R_GOOD), (K_SETTLE, 0, 0), (K_RETRY, 0, 0), (K_SETTLE, 0, 0)]));
+    //     (c) flagged on the retry path (data still pending): still misbehaving, nothing is sent
+    v.push(fam(29, 1, o, vec![(K_REG, 0, R_GOOD), (K_UP, 0, 0), (K_REV, 0, 0), (K_MODE, 0, A_WRONGKEY), (K_UP, 0, 1), (K_SETTLE, 0, 0), (K_MODE, 0, A_ACCEPT), (K_REG, 0, R_GOOD),
+                              (K_SETTLE, 0, 0), (K_REV, 1, 0), (K_SETTLE, 0, 0)]));
     // 26: BULK delivery: many appointments pending for a tower that is down; it comes back and ONE retry run delivers them one
     //     after the other, each a pending -> accepted move (two durable writes) the database sampler watches at full rate
     //     (the retrier is idle while the appointments pile up, so that nothing else is going on)
